@@ -23,20 +23,22 @@ CLAIMED = {
             "DESIGN.md §8 C01", "deterministic simulation: seeded schedules + transport chunking/back-pressure; omniscient delivery oracle"),
     "C02": e1("Same simulated stack with 1-3 client goroutines issuing up to 6 rpcs on one connection while earlier rpcs are cancelled, closed, failed or abandoned at "
             "scheduler-chosen instants and their late packets are delayed into later rpcs. Oracles: every message/response/error/metadata observed by rpc k "
-            "belongs to rpc k; a clean rpc on a connection that stayed alive completes fully (no foreign EOF/cancel); a handler runs at most once per rpc.",
+            "belongs to rpc k; a clean rpc on a connection that stayed alive completes fully (no foreign EOF/cancel); a handler runs at most once per rpc and receives a "
+            "fresh request object; the server never drops a connection nobody closed (how D15 was found); no call stays blocked for ever on a healthy connection "
+            "(how D16 was found by the thorough tier). Found and repaired D9, D15, D16.",
             "DESIGN.md §8 C02", "deterministic simulation: seeded schedules, delayed delivery, soft/hard cancel; attribution oracle on tagged messages"),
     "C04": e1("Cancellation fired by a separate task at a scheduler-chosen instant while 1-4 operations of the rpc are in flight (incl. sends parked in a stalled or "
             "back-pressured transport, closers waiting behind them). At global quiescence (exact: nothing is runnable, no timer pending) no client call of the "
-            "cancelled rpc may still be in flight; calls blocked at the instant of cancel must report the context error; later calls fail; the connection is closed "
-            "or the probe rpc works; the peer handler is released once the cancel/disconnect has been consumed. Two genuine defects are listed as known findings.",
+            "cancelled rpc may still be in flight; calls blocked at the instant of cancel must report the context error; later calls fail (incl. a fresh MsgRecv and "
+            "MsgSend issued by the harness at quiescence on every cancelled, terminated client stream); the connection is closed or the probe rpc works; the peer handler is released once the cancel/disconnect has been consumed. Two genuine defects are listed as known findings.",
             "DESIGN.md §8 C04", "deterministic simulation with exact blocked-forever census at quiescence; stall/back-pressure faults; both cancel modes"),
     "C05": e1("For every base program the fault-free twin run is executed, its transport calls are numbered per endpoint, and the k-th call of each endpoint is failed "
             "for every k in five ways (read error, read error attached to data, write error after a partial write, peer close, local close; fail-stop endpoint). "
             "Oracles: nothing stays inside a call, both sides report closed, later rpcs fail, everything delivered is a correct prefix of its own stream, no panic.",
             "DESIGN.md §8 C05", "deterministic simulation with exhaustive enumeration of the fault position over sampled programs/schedules", "fault_enumeration"),
     "C06": e1("Histories of 1-4 ill-behaved rpcs (handlers/clients stopping early, errors, soft cancel at any instant incl. before the invoke is written, healed stalls) "
-            "are driven to quiescence; if every rpc has ended on both sides and the connection does not report closed, a probe rpc must reach its handler and "
-            "return its response. Found and repaired D2 and D3.",
+            "are driven to quiescence; if every rpc has ended on both sides and the connection does not report closed, a probe rpc (issued twice) must reach its handler and "
+            "return its response; with one client task an rpc must never be unable to START while all its predecessors have ended. Found and repaired D2 and D3.",
             "DESIGN.md §8 C06", "deterministic simulation; probe rpc after global quiescence; exact hang census"),
     "C07": e1("A passive monitor parses every buffer handed to Transport.Write with an independent reference frame parser under 2-4 tasks hammering one connection "
             "(multi-frame sends, flushes, closers, cancellers, next-rpc starters, writes parked by back-pressure): ids never decrease, one kind per id, no frame after "
@@ -44,10 +46,12 @@ CLAIMED = {
             "DESIGN.md §8 C07", "deterministic simulation; runtime wire invariant checked by an independent reference parser"),
     "C10": e1("All four rpc shapes through the real drpcmux with handler errors of arbitrary text (empty, binary, 90 KiB), codes (0,1,2^63,2^64-1) attached at wrapping "
             "depth 0-5 via Unwrap/Cause/errs.Wrap, plus unknown-rpc failures; the client's failing call must carry exactly that text and code after receiving the "
-            "messages sent before it; successful handlers never yield an error; the probe rpc works afterwards. Found and repaired D10.",
+            "messages sent before it (also for errors that wrap io.EOF); the error packet on the server's wire carries the handler's text; successful handlers never yield an "
+            "error; the probe rpc works afterwards and no client call stays blocked for ever. Found and repaired D10 and D16.",
             "DESIGN.md §8 C10", "deterministic simulation; error text/code compared with ground truth under all delivery schedules"),
-    "C11": e1("2-6 calls per connection with none/empty/1-4 pairs of metadata (empty, binary, 4 KiB strings) abandoned at every point incl. between metadata and invoke: "
-            "handler k sees exactly call k's map; every invoke-metadata packet on the wire is the canonical protobuf encoding of map<string,string>=1 of some call "
+    "C11": e1("2-6 calls per connection with none/empty/1-4 pairs of metadata (empty, binary, 4 KiB strings, value/entry lengths 126-129 and 16383/16384) attached in three "
+            "application styles (AddPairs of a fresh map; AddPairs of a long-lived shared map followed by per-call Add; Add pair by pair) and abandoned at every point incl. "
+            "between metadata and invoke: handler k sees exactly call k's map; the application's shared map is never modified; every invoke-metadata packet on the wire is the canonical protobuf encoding of map<string,string>=1 of some call "
             "(independent reference codec). The pure round-trip-for-all-maps / decode-arbitrary-bytes clause is exercised only through generated maps and the "
             "hostile payloads of C13 (stated partial scope).",
             "DESIGN.md §8 C11, §9", "deterministic simulation; per-call attribution + wire-format oracle with reference protobuf codec"),
@@ -58,13 +62,16 @@ CLAIMED = {
             "DESIGN.md §8 C12", "deterministic simulation with enumeration of the close position over sampled programs/schedules; goroutine leak census", "fault_enumeration"),
     "C13": e1("A byzantine man-in-the-middle rewrites bytes in flight inside live sessions: bit flips, garbage, well-formed hostile frames (any kind, control bit, stream "
             "ids 0/current±1/2^64-1, huge message ids), over-long varints, frames announcing up to 2^61 bytes followed by 400 KB floods, hostile error/metadata "
-            "payloads. Oracles: no task panics; the reader never offers the transport a buffer beyond 4x maximum + 64 KiB. The drpchttp entry points are pure and "
-            "NOT decided (stated partial scope).",
+            "payloads, damage of genuine invoke-metadata packets, and one never-finished packet of 6x the reader maximum. Oracles: no task panics; the reader never offers the "
+            "transport a buffer beyond 4x maximum + 64 KiB; the flooded side ends its connection; hostile bytes leave no goroutine behind after teardown. The drpchttp entry "
+            "points are pure and NOT decided; data races whose only effect is a runtime crash are invisible to a sequentially consistent simulator (stated partial scope).",
             "DESIGN.md §8 C13, §9", "deterministic simulation with byzantine byte/frame injection; panic and memory-bound oracles"),
     "C18": e1("(a) the released v0.0.17 drpcwire reader (vendored verbatim, telemetry removed) is attached as a second consumer to everything either endpoint emits in "
             "every run and must decode the same packets as the reference parser minus control-bit ones; the released gogo-protobuf metadata decoder must accept "
-            "emitted UTF-8 metadata; (c) a renumbering proxy interleaves unknown control packets (kinds 8-63, 1-2 frames) into live streams and delivery, "
-            "completeness and error oracles must still hold. (b) old-writer -> new-reader is decided by the reader-chunk engine. Full old-endpoint interop is not decided.",
+            "emitted UTF-8 metadata; every emitted packet of a kind v0.0.17 does not know must carry the control bit; (c) a renumbering proxy interleaves unknown control packets "
+            "(kinds 8-63, 1-2 frames; also one carrying the id of the NEXT stream right after a well-behaved rpc's half-close) into live streams and delivery, completeness, "
+            "error and no-hang oracles must still hold; (b) every 4th chunk of runs feeds byte streams produced by the vendored v0.0.17 Writer/SplitN (ids up to 2^64-1) to the "
+            "current reader under the reader-chunk engine's differential/metamorphic oracles. Full old-endpoint interop is not decided.",
             "DESIGN.md §8 C18, §9", "deterministic simulation; differential check against the released v0.0.17 codec; unknown-control-packet injection"),
 }
 
@@ -76,18 +83,19 @@ CLAIMED["C03"] = other("stream-model",
     "Sequential histories (1-9 events) are compared event by event with an executable reference state machine written from state.dot/README/the statement: result class of each call, "
     "packets emitted (kind, control bit, payload, error payload layout), terminated/finished/context-done signals, and HandlePacket's connection-fatal verdict. Concurrent histories "
     "(2-3 callers + packet feeder, writes parked in a stalled transport) are checked against order-independent rules (idempotence, no send after termination, finished iff terminated and idle, "
-    "no write in flight on a finished stream at ANY step, valid frame stream, no second terminal packet, nothing blocked for ever).",
+    "no write in flight on a finished stream at ANY step, at most one transport write with message frames may begin on a terminated stream per call, valid frame stream, no second terminal packet, "
+    "nothing blocked for ever). 30% of histories use ManualFlush (buffered sends; RawFlush, receives and terminal packets flush; a flush after send-close/termination fails and emits nothing).",
     "DESIGN.md §8 C03", "deterministic simulation + model-based testing against a reference state machine",
     "Trusted: the reference state machine in /verif/sim/e2_stream.go; testing/synctest; simsync; sampled histories (all histories of length <= 3 are reached with high probability in the thorough tier, not enumerated).")
 CLAIMED["C09"] = other("reader-chunk",
-    "Generated byte strings (valid packet sequences, single malformations, hostile streams incl. padded varints, streams produced by the released v0.0.17 writer) are fed to the real drpcwire.Reader under "
+    "Generated byte strings (valid packet sequences with ids up to 2^64-1, single malformations incl. unfinished packets abandoned by a higher id and ids going down after an unfinished packet, hostile streams incl. padded varints, streams produced by the released v0.0.17 writer) are fed to the real drpcwire.Reader under "
     "5 different partitions into reads (everything at once, byte-wise, small, mixed) with errors attached to data or delivered alone and bursts of empty reads, plus a >=100-empty-reads no-progress probe. "
     "Oracles: (a) differential against an independent reference reassembler, (b) metamorphic: the same bytes give the same packets and error class under every partition, (c) memory: buffer capacity and the "
     "largest slice offered to Read stay below 4x maximum + 64 KiB. Found and repaired D4 and D12. This engine also decides clause (b) of C18 (old writer -> new reader).",
     "DESIGN.md §8 C09", "deterministic simulation of the io.Reader seam (read partitioning and error injection) + differential/metamorphic oracles",
     "Trusted: reference reassembler (/verif/sim/e3_reader.go, refwire.go), overlay accessor VerifBufCap; no concurrency is involved (single goroutine), the simulated seam is the io.Reader.")
 CLAIMED["C15"] = other("pool-sim",
-    "One real drpcpool.Pool with simulator-owned connections; 2-3 worker tasks Put/Take/re-Put/close/block/unblock over 1-3 keys with all capacity settings; expiry callbacks are director tasks on the fake clock, so "
+    "One real drpcpool.Pool with simulator-owned connections; 2-3 worker tasks Put/Take/re-Put/close/block/unblock and Pool.Close over 1-3 keys with all capacity settings; expiry callbacks are director tasks on the fake clock, so "
     "'expiry fired but not completed' is an ordinary schedulable state. Every step at which nobody holds the pool lock an overlay accessor walks the lists: bounds, count == length, forward == backward, per-key sum == global. "
     "Take results are checked for ownership (cached, not handed out, not pool-closed) and state (not closed / blocked / expiry-fired before Take began); at the end (pool closed, timers drained) every Put connection was handed out or "
     "closed by the pool exactly once. Every 4th chunk of runs uses the pooled family of rpc-sim instead: client scripts call pool.Get(...) whose dial creates real drpcconn connections served by a real drpcserver.Serve "
@@ -96,8 +104,8 @@ CLAIMED["C15"] = other("pool-sim",
     "Trusted: overlay accessor VerifState (reads private list fields; a rename breaks the build, exit 2); fake connections; synctest fake clock; sampled operation sequences and schedules.")
 CLAIMED["C16"] = other("mux-sim",
     "Real drpcmigrate.ListenMux (prefix length 1-8, routes registered before/while running) over a simulated base listener; 2-6 dialers with registered / unregistered / too-short prefixes writing in arbitrary splits, some through "
-    "HeaderConn with 1-3 concurrent writers; acceptors per listener; route Close, context cancel and base-listener failure at scheduler-chosen instants. Oracles at quiescence: each accepted connection is returned by exactly one Accept "
-    "(its route, else default) or closed or still waiting for its prefix; routed bytes = client bytes minus prefix, default bytes unmodified; header exactly once and first on the wire with correct write counts; after stop no Accept blocks, Run returns and all goroutines exit.",
+    "HeaderConn with 1-3 concurrent writers, some waiting for a one-byte answer before they close; acceptors per listener (some listeners have none); route Close followed by a second Route of the same prefix, context cancel and base-listener failure at scheduler-chosen instants. Oracles at quiescence: each accepted connection is returned by exactly one Accept "
+    "(its route, else default) or closed or still waiting for its prefix; routed bytes = client bytes minus prefix, default bytes unmodified and available as they arrive; a prefix registered again with a fresh listener is honoured; a connection parked at a listener nobody accepts on holds up nothing; header exactly once and first on the wire with correct write counts; after stop no Accept blocks, Run returns and all goroutines exit.",
     "DESIGN.md §8 C16", "deterministic simulation with seeded schedules over a simulated listener/connection seam; routing and transparency oracles",
     "Trusted: simnet listener/conn honouring the net contracts (closing a listener resets un-accepted connections); deterministic map iteration patch in the private runtime copy; sampled programs and schedules.")
 CLAIMED["C19"] = other("signal-sim",
